@@ -929,6 +929,8 @@ def adapt_typehints(
                 val = {cast(k): v for k, v in val.items()}
             else:
                 val = dict(val)
+                if subtypehints[0] is str and not all(isinstance(k, str) for k in val):
+                    raise_unexpected_value("Expected all keys to be str", val)
             for k, v in val.items():
                 if "linked_targets" in adapt_kwargs["sub_add_kwargs"]:
                     kwargs = deepcopy(adapt_kwargs)
